@@ -1,5 +1,5 @@
 --------------------------- MODULE AxiLiteIcGraph ---------------------------
-EXTENDS AxiLiteIcContract, Json, IOUtils
+EXTENDS AxiLiteIcContract, Json, IOUtils, GraphLookup
 G == JsonDeserialize(IOEnv.GRAPH)
 NDuts == Len(G.duts)
 VARIABLES d, s
@@ -8,11 +8,10 @@ C == G.duts[d].cfg
 Init == /\ d \in 1..NDuts /\ s = 0 /\ CInit
 Step(iv) ==
   /\ s >= 0
-  /\ LET k == ToString(iv) IN
-       IF k \in DOMAIN G.duts[d].succ[s + 1]
-       THEN LET e == G.duts[d].succ[s + 1][k] IN
-            /\ s' = e.d /\ d' = d
-            /\ CStep(C, iv, e.o)
+  /\ LET e == GLookup(G.duts[d].succ[s + 1], iv) IN
+       IF e # <<>>
+       THEN /\ s' = e[3] /\ d' = d
+            /\ CStep(C, iv, e[2])
        ELSE /\ PrintT(<<"NEED", d, s, iv>>)
             /\ s' = -1 /\ d' = d /\ UNCHANGED cvars
 Next == \E iv \in Inputs(C) : Step(iv)
@@ -20,6 +19,9 @@ Spec == Init /\ [][Next]_vars /\ WF_vars(Next)
 Alias == [d |-> d, s |-> s, obs |-> obs, aq |-> aq, qa |-> qa, ew |-> ew, wt |-> wt,
           iv |-> CHOOSE iv \in Inputs(C) : Step(iv)]
 (* every requesting master is eventually served: with slaves and masters that cooperate   *)
-(* infinitely often nothing stays held or outstanding forever                             *)
-Served == ((<>[](obs.sfair)) /\ (<>[](obs.mfair))) => []<>(~obs.busy)
+(* from some point on, every master with something pending keeps completing handshakes    *)
+Served == (<>[](obs.fair)) => \A i \in 1..MAXN : []<>(obs.prog[i])
+(* the same for masters whose traffic has gaps (each of them is idle infinitely often):     *)
+(* the weaker guarantee a round-robin that only moves on an idle bus can give              *)
+ServedIfGaps == ((<>[](obs.fair)) /\ (\A i \in 1..MAXN : []<>(obs.idle[i]))) => \A i \in 1..MAXN : []<>(obs.prog[i])
 =============================================================================
